@@ -76,6 +76,10 @@ func checkC16Stall(c HSPath, o *Obs) error {
 			return
 		}
 		if r.end != nil {
+			// crypto/tls (Go >= 1.25) closes the underlying connection of an
+			// interrupted handshake from a context.AfterFunc goroutine that may
+			// still be running when Dial returns: let the bubble settle first.
+			synctest.Wait()
 			_, closed, _, _, _ := r.end.State()
 			if closed == 0 {
 				result = fmt.Errorf("%s, peer silent at %q: Dial timed out (%v) but did not close the network connection", c.Path, c.Stall, r.err)
